@@ -125,6 +125,19 @@ pub(crate) fn worlds(env: &Env) -> Vec<(String, Chain)> {
         ),
     ));
     out.push((
+        "W4-prestart13".to_owned(),
+        mk(
+            13,
+            &[
+                (1, Act::Mine('B')),
+                (3, Act::Move('B', 'A')),
+                (6, Act::Move('A', 'A')),
+                (8, Act::Mine('A')),
+                (10, Act::Move('A', 'B')),
+            ],
+        ),
+    ));
+    out.push((
         "W3-short6".to_owned(),
         mk(
             6,
@@ -250,6 +263,8 @@ pub(crate) fn run(opts: &Opts, report: &mut Report) {
         let name = sc.name.clone();
         let regs2 = regs.clone();
         let mut nonempty = 0u64;
+        // classes that already show in the default run are not attributed to a deviation
+        let mut base_classes: Vec<String> = vec![];
         let stats = {
             let mut judge = |sim: &Sim, outcome: &RunOutcome, devs: &[(usize, Dev)], extra: &[(String, String, usize)]| {
                 let bad = judge_run(sim, outcome, &regs2, extra);
@@ -263,7 +278,14 @@ pub(crate) fn run(opts: &Opts, report: &mut Report) {
                     let mut v = vec![];
                     let (_s, traced) = explore::run(&sc, None, devs, 0, true, &mut v);
                     for (class, items) in groups {
-                        let dev_kinds: Vec<String> = devs.iter().map(|(_, d)| format!("{:?}", d).split('(').next().unwrap_or("").to_owned()).collect();
+                        if devs.is_empty() {
+                            base_classes.push(class.clone());
+                        }
+                        let dev_kinds: Vec<String> = if base_classes.contains(&class) {
+                            vec![]
+                        } else {
+                            devs.iter().map(|(_, d)| format!("{:?}", d).split('(').next().unwrap_or("").to_owned()).collect()
+                        };
                         report.violation(
                             format!("{}/{}", class, dev_kinds.join("+")),
                             format!("[{}] {}", name, items[0]),
@@ -301,6 +323,6 @@ pub(crate) fn run(opts: &Opts, report: &mut Report) {
     report.set("evaluations", json!(report.get("runs")));
     report.set("distinct_nontrivial", json!(report.get("runs_with_indexed_cells")));
     report.set("rule", json!("a run = the honest sync history of one (world, script set, batch size) with <= bound deviations inserted, executed from scratch on the real client; states = distinct final (store, peers) fingerprints; transitions = executed steps (deliveries, timer rounds, user calls, restarts); every run is judged after quiescence by the reference index"));
-    report.set("bounds", json!({"deviations": if thorough { 2 } else { 1 }, "worlds": 3, "script_sets": 4, "deviation_alphabet": ["DeliverIndex", "TruncateBatch", "TickRound", "Restart", "FetchTx", "FetchHeader", "SetScripts(partial, unchanged)"]}));
+    report.set("bounds", json!({"deviations": if thorough { 2 } else { 1 }, "worlds": 4, "script_sets": 4, "deviation_alphabet": ["DeliverIndex", "TruncateBatch", "TickRound", "Restart", "FetchTx", "FetchHeader", "SetScripts(partial, unchanged)"]}));
     report.assume("honest peers only; the world grows by one empty block on a restart so that the peer can be proven again");
 }
